@@ -86,7 +86,7 @@ theorem inv_env (s s' : St) (a : Act) (ha : a.isEnv = true) (hi : Inv s) (h : st
         intro c hc
         rcases List.mem_or_eq_of_mem_set hc with hc | hc
         · exact callerInv_keep s _ c rfl rfl (by simp) (by simp) (by simp) (ics c hc)
-        · subst hc; cases k <;> simp [callerInv] <;> grind
+        · subst hc; cases k <;> simp [callerInv, startCaller] <;> grind
       · simp at h
     · simp at h
   case envServe i =>
